@@ -62,6 +62,9 @@ var (
 
 // Quiet silences the server-side request logging.
 func Quiet() {
+	if os.Getenv("VERIF_LOUD") != "" {
+		return // debugging: keep the server's logs
+	}
 	slog.SetDefault(slog.New(slog.NewTextHandler(io.Discard, nil)))
 	log.SetOutput(io.Discard)
 }
